@@ -186,7 +186,12 @@ def main():
     outcome_hist = {}
     ndiff = 0
     for (case, klass), om, oi in zip(cases, out_m, out_i):
-        d = gen.compare(case, om, oi)
+        if oi == "skipped-after-timeouts":
+            continue
+        if oi == "timeout" or oi.startswith("crash "):
+            d = "implementation %s (model: %s)" % (oi, om[:120])
+        else:
+            d = gen.compare(case, om, oi)
         if d is None and hasattr(gen, "oracle"):
             # expectation that follows from the theorems alone (independent of the model run)
             d = gen.oracle(case, klass, om, oi)
